@@ -32,6 +32,10 @@ def proj_rate(d):
 
 def check(ctx):
     rows = R.run_kind(ctx, 'rate', shards=min(R.NCPU, 4))
+    twin = [r for r in rows if 'op=native-twin' in r[0]]
+    rows = [r for r in rows if 'op=native-twin' not in r[0]]
+    # one limiter value applied to two sources: the second stream keeps its quota and goes on when the first one goes away
+    R.compare(ctx, twin, proj_all, 'C20 one native limiter value applied to two sources: the second stream is not affected when the first goes away', nontrivial=lambda c, gd: True, recheck=1)
     eq = [r for r in rows if 'op=native-rt' not in r[0]]
     rt = [r for r in rows if 'op=native-rt' in r[0]]
     R.compare(ctx, eq, proj_rate, 'C20 logical composition of the native limiter / ulule limiter: delivered items, terminal, store answers',
